@@ -1,5 +1,7 @@
 import AuthModel
 import AuthModel.Wire
+import AuthModel.Store.Memory
+import AuthModel.Store.Redis
 open AuthModel AuthModel.Wire
 
 def parseMatch (t : Tok) : Option StringMatch :=
@@ -48,32 +50,129 @@ def parseChain (t : Tok) : Option Chain :=
     pure { criterion := c, filters := filters }
   | _ => none
 
-def handle (toks : List Tok) : String :=
+structure DState where
+  kind : Nat := 0              -- 0 memory, 1 redis
+  mem : MemStore := MemStore.empty 0 0
+  abs : Int := 0
+  idle : Int := 0
+  red : Str → RHash := fun _ => {}
+  now : Int := 0
+  parseTbl : List (Str × Bool) := []
+
+def DState.parses (d : DState) : Str → Bool := fun s =>
+  match d.parseTbl.find? (·.1 == s) with
+  | some e => e.2
+  | none => false
+
+def showExp : Option Int → String
+  | none => "-"
+  | some e => toString e
+
+def showTok : Option Tokens → String
+  | none => "nil"
+  | some t => "tok " ++ hex t.idToken ++ " " ++ hex t.accessToken ++ " " ++ hex t.refreshToken ++ " " ++ showExp t.accessExp
+
+def showAuth : Option AuthState → String
+  | none => "nil"
+  | some a => "auth " ++ hex a.state ++ " " ++ hex a.nonce ++ " " ++ hex a.requestedUrl ++ " " ++ hex a.codeVerifier
+
+def okErr (b : Bool) : String := if b then "ok" else "err"
+
+def expOf (t : Tok) : Option (Option Int) := if t = ['-'] then some none else (intOf t).map some
+
+def storeOp (d : DState) (toks : List Tok) : DState × String :=
+  match toks with
+  | [['s','e','t','t','o','k'], _inst, id, a, b, c, e] =>
+    match unhex id, unhex a, unhex b, unhex c, expOf e with
+    | some id, some a, some b, some c, some e =>
+      let t : Tokens := { idToken := a, accessToken := b, refreshToken := c, accessExp := e }
+      if d.kind = 0 then ({ d with mem := d.mem.setTok d.now id t }, "ok")
+      else
+        let (h, ok) := Redis.setTok d.abs d.idle d.now t (d.red id)
+        ({ d with red := upd d.red id h }, okErr ok)
+    | _, _, _, _, _ => (d, "bad-op")
+  | [['s','e','t','a','u','t','h'], _inst, id, a, b, c, e] =>
+    match unhex id, unhex a, unhex b, unhex c, unhex e with
+    | some id, some a, some b, some c, some e =>
+      let st : AuthState := { state := a, nonce := b, requestedUrl := c, codeVerifier := e }
+      if d.kind = 0 then ({ d with mem := d.mem.setAuth d.now id st }, "ok")
+      else
+        let (h, ok) := Redis.setAuth d.abs d.idle d.now st (d.red id)
+        ({ d with red := upd d.red id h }, okErr ok)
+    | _, _, _, _, _ => (d, "bad-op")
+  | [op, _inst, id] =>
+    match unhex id with
+    | none => (d, "bad-op")
+    | some id =>
+      if op = "gettok".toList then
+        if d.kind = 0 then
+          let (m, r) := d.mem.getTok d.now id
+          ({ d with mem := m }, showTok r)
+        else
+          let (h, r) := Redis.getTok d.parses d.abs d.idle d.now (d.red id)
+          ({ d with red := upd d.red id h }, match r with | .ok t => showTok t | .err => "err")
+      else if op = "getauth".toList then
+        if d.kind = 0 then
+          let (m, r) := d.mem.getAuth d.now id
+          ({ d with mem := m }, showAuth r)
+        else
+          let (h, r) := Redis.getAuth d.abs d.idle d.now (d.red id)
+          ({ d with red := upd d.red id h }, match r with | .ok t => showAuth t | .err => "err")
+      else if op = "clear".toList then
+        if d.kind = 0 then ({ d with mem := d.mem.clearAuth d.now id }, "ok")
+        else
+          let (h, ok) := Redis.clearAuth d.abs d.idle d.now (d.red id)
+          ({ d with red := upd d.red id h }, okErr ok)
+      else if op = "remove".toList then
+        if d.kind = 0 then ({ d with mem := d.mem.remove id }, "ok")
+        else ({ d with red := upd d.red id (Redis.remove (d.red id)) }, "ok")
+      else (d, "bad-op")
+  | [['s','w','e','e','p'], _inst] =>
+    if d.kind = 0 then ({ d with mem := d.mem.removeAllExpired d.now }, "ok") else (d, "ok")
+  | _ => (d, "bad-op")
+
+def handle (d : DState) (toks : List Tok) : DState × String :=
   match toks with
   | [['t','r','i','g'], target, rules, re] =>
-    match unhex target, parseRules rules, parseRe re with
+    (d, match unhex target, parseRules rules, parseRe re with
     | some t, some rs, some tbl => if mustTrigger (reOracle tbl) rs t then "1" else "0"
-    | _, _, _ => "bad-op"
+    | _, _, _ => "bad-op")
   | [['p','q','f'], s] =>
-    match unhex s with
+    (d, match unhex s with
     | some s => match pqfLit s with
       | some (p, q, f) => hex p ++ " " ++ hex q ++ " " ++ hex f
       | none => "panic"
-    | none => "bad-op"
+    | none => "bad-op")
   | [['c','h','a','i','n'], trig, au, chains, hdrs] =>
-    match boolOf trig, boolOf au, (splitList ';' chains).mapM parseChain, parseHeaders hdrs with
+    (d, match boolOf trig, boolOf au, (splitList ';' chains).mapM parseChain, parseHeaders hdrs with
     | some t, some a, some cs, some h => showOptResp (check t a cs h)
-    | _, _, _, _ => "bad-op"
-  | _ => "bad-op"
+    | _, _, _, _ => "bad-op")
+  | [['s','t','o','r','e'], ['n','e','w'], kind, abs, idle, now] =>
+    match intOf abs, intOf idle, intOf now with
+    | some a, some i, some n =>
+      ({ d with kind := if kind = "mem".toList then 0 else 1, mem := MemStore.empty a i, abs := a, idle := i,
+                red := fun _ => {}, now := n, parseTbl := [] }, "ok")
+    | _, _, _ => (d, "bad-op")
+  | [['o','r','a','c','l','e'], ['p','a','r','s','e'], s, b] =>
+    match unhex s, boolOf b with
+    | some s, some b => ({ d with parseTbl := (s, b) :: d.parseTbl }, "ok")
+    | _, _ => (d, "bad-op")
+  | [['t','i','c','k'], n] =>
+    match intOf n with
+    | some n => ({ d with now := d.now + n }, "ok")
+    | none => (d, "bad-op")
+  | ['s','o','p'] :: rest => storeOp d rest
+  | _ => (d, "bad-op")
 
-partial def loop (h : IO.FS.Stream) (out : IO.FS.Stream) : IO Unit := do
+partial def loop (h : IO.FS.Stream) (out : IO.FS.Stream) (d : DState) : IO Unit := do
   let line ← h.getLine
   if line.isEmpty then return ()
   let cs := line.toList.filter (fun c => c ≠ '\n' ∧ c ≠ '\r')
-  out.putStrLn (handle (splitC ' ' cs))
-  loop h out
+  let (d', o) := handle d (splitC ' ' cs)
+  out.putStrLn o
+  loop h out d'
 
 def main : IO Unit := do
   let out ← IO.getStdout
-  loop (← IO.getStdin) out
+  loop (← IO.getStdin) out {}
   out.flush
